@@ -616,6 +616,7 @@ RULES = {
     "R12f": Rule("R12f", "X.data == [1] -> __vec_is_one(&X.data)", "$x . data == [ 1 ]", "__vec_is_one ( & $x . data )"),
     "R3i": Rule("R3i", "rem.into() -> From::from(rem)  (std: blanket `impl Into<U> for T where U: From<T>`)", "rem . into ( )", "From :: from ( rem )"),
     "R3o": Rule("R3o", "One::one() -> BigUint::one()  (the impl selected by the return type)", "One :: one ( )", "BigUint :: one ( )"),
+    "R18": Rule("R18", "|_| E -> |_e| E  (Verus rejects `_` closure parameters)", "| _ |", "| _e |"),
     "R4b": Rule("R4b", "for (a, &b) in I { S } -> for (a, b_r__) in I { let b = *b_r__; S }",
                 "for ( $a , & $b ) in $$i { $$s }",
                 "for ( $a , b_r__ ) in $$i { let $b = * b_r__ ; $$s }"),
